@@ -28,14 +28,21 @@ def handle1 (op : String) (args : List Sexp) : Option String := do
       -- loop(list, tuple, dict)(recorder)(*as, **kw); `top` = name of the recorder's first parameter
       let top ← hexDecode top
       match ← Val.ofSexp as, ← Val.ofSexp kw with
-      | .list as, .dict kw => pure (reply (callLifted recorder top as kw))
+      | .list as, .dict kw => pure (reply (callLifted (recorderNamed top) top as kw))
       | _, _ => Option.none
   | "callx", [Sexp.atom top, as, kw] =>
       -- the same call; the harness runs it on namedtuples / dicts with keys of several types through a fixed
       -- bijection of the containers (the model has plain tuples and string keys)
       let top ← hexDecode top
       match ← Val.ofSexp as, ← Val.ofSexp kw with
-      | .list as, .dict kw => pure (reply (callLifted recorder top as kw))
+      | .list as, .dict kw => pure (reply (callLifted (recorderNamed top) top as kw))
+      | _, _ => Option.none
+  | "cally", [Sexp.atom top, as, kw] | "callz", [Sexp.atom top, as, kw] =>
+      -- the same call again: the harness spells the dict keys of the companions differently from those of the looped argument
+      -- (1.0 for 1: the same key set under python ==), or uses tuple keys of mixed content that cannot be sorted
+      let top ← hexDecode top
+      match ← Val.ofSexp as, ← Val.ofSexp kw with
+      | .list as, .dict kw => pure (reply (callLifted (recorderNamed top) top as kw))
       | _, _ => Option.none
   | "lib", [Sexp.atom _, v, kw] =>
       -- a library helper built with loop(list, dict, tuple): `_helper(v, **kw)`; the reply holds the leaf calls
